@@ -949,13 +949,13 @@ _crash()
 def _hasher():
     for kind, base in (("pqn", "pq"), ("dqn", "dq")):
         dq = base == "dq"
-        for op, grow in (("push", 1), ("change_priority", 0), ("remove", 0), ("push_increase", 1), ("get_mut", 0),
-                         ("pop_hi", 0), ("change_priority_item", 0)):
+        for op, grow in (("push", 1), ("change_priority", 0), ("remove", 0), ("push_increase", 1), ("push_decrease", 1),
+                         ("get_mut", 0), ("pop_hi", 0), ("change_priority_item", 0)):
             for n in range(0, 5):
                 t = tq(n, qmax_of(base, op, 3, 2, 2), 4)
-                if dq and op in ("push_increase", "change_priority_item") and n >= 2:
+                if dq and op in ("push_increase", "push_decrease", "change_priority_item") and n >= 2:
                     t = THOROUGH
-                grp = "all" if op in ("push_increase", "get_mut", "change_priority_item") else "mo"
+                grp = "all" if op in ("push_increase", "push_decrease", "get_mut", "change_priority_item") else "mo"
                 step(op, kind, n, "inv", grp, {"C18": t}, grow=grow)
 
     # a hasher with per-instance state (every queue draws its own symbolic key, like
